@@ -19,6 +19,10 @@ func runModGraph(args []*Sexp) *Sexp {
 	for i, a := range args[3:] {
 		mm.AddSourceModule(fmt.Sprintf("m%d", i+1), atomBytes(a))
 	}
+	// Go modules of a host Importable whose value is not a map: private per VM like any builtin module value
+	mm.Add("cbytes", objImporter{ugo.Bytes{1, 2, 3}})
+	mm.Add("carr", objImporter{ugo.Array{ugo.Int(1), ugo.Array{ugo.Int(2)}}})
+	mm.Add("csm", objImporter{&ugo.SyncMap{Value: ugo.Map{"k": ugo.Int(1), "inner": ugo.Map{}}}})
 	opts := ugo.CompilerOptions{ModuleMap: mm, NoOptimize: args[0].Atom == "noopt"}
 	bc, err, pan := compileSrc(atomBytes(args[2]), opts)
 	if pan != nil {
